@@ -327,14 +327,23 @@ func c09(c *core.Ctx) {
 			return
 		}
 		k.Eval(1)
+		aVal := new(big.Int).Set(a) // the value drawn, for the reference (the objects go through several calls)
 		pa, pb := g.GetPublicValue(a), g.GetPublicValue(b)
+		if k.Index%2 == 1 {
+			// between sending its public value and computing the secret, each party uses the SAME exponent object with the
+			// other group (a KE for the peer's preferred group after INVALID_KE_PAYLOAD, later abandoned)
+			og, _, _ := grp(1 - gi)
+			_ = og.GetPublicValue(a)
+			_ = og.GetSharedKey(b, new(big.Int).SetBytes(pa))
+			k.Count("exponent_objects_used_with_the_other_group_in_between", 1)
+		}
 		sa := g.GetSharedKey(a, new(big.Int).SetBytes(pb))
 		sb := g.GetSharedKey(b, new(big.Int).SetBytes(pa))
 		if !bytes.Equal(sa, sb) || len(sa) != n || len(pa) != n {
 			k.Violate("mismatch", "two-parties-disagree", fmt.Sprintf("%x vs %x", sa, sb), M{"group": libsa.DhNames[gi], "a": a.Text(16), "b": b.Text(16)})
 			return
 		}
-		if !bytes.Equal(sa, ref.FixedLen(ref.ModExp(new(big.Int).SetBytes(pb), a, p), n)) {
+		if !bytes.Equal(sa, ref.FixedLen(ref.ModExp(new(big.Int).SetBytes(pb), aVal, p), n)) || !bytes.Equal(pa, ref.FixedLen(ref.ModExp(big.NewInt(2), aVal, p), n)) {
 			k.Violate("mismatch", "shared-secret-wrong/agreement", "", M{"a": a.Text(16)})
 			return
 		}
@@ -514,7 +523,7 @@ func c09(c *core.Ctx) {
 		}
 	})
 	freshFamily(c, "C09", "fresh-process", c.N(2, 40))
-	c.Require("same_object_as_exponent_and_peer", "materials_with_related_peer", "fresh_process_cases_ok", "short_read_sources", "low_draw_runs", "lz_shared_1", "lz_shared_100+", "lz_public_100+", "below_minimum_retried", "fault_at_read_0", "lz_shared_searched")
+	c.Require("exponent_objects_used_with_the_other_group_in_between", "same_object_as_exponent_and_peer", "materials_with_related_peer", "fresh_process_cases_ok", "short_read_sources", "low_draw_runs", "lz_shared_1", "lz_shared_100+", "lz_public_100+", "below_minimum_retried", "fault_at_read_0", "lz_shared_searched")
 }
 
 // ---------------------------------------------------------------------------
